@@ -241,6 +241,15 @@ def g_heaps(t, n):
             if t.cur == h: t.cur = 0
         elif k < 0.16:
             h = t.heap(); t.emit("HS", h); t.cur = h
+        elif k < 0.05 + 0.16 and t.bytes < 60 << 20:
+            # pages that sit in the FULL queue when the heap is deleted/destroyed: single-block pages (large blocks are
+            # moved to the full queue at once) and a run of equal blocks that fills a page completely
+            h = t.heap()
+            if r.random() < 0.5:
+                t.alloc(kind=r.choice(["M", "Z"]), size=r.choice([70000, 131072, 300000, 1 << 20]), heap=h)
+            else:
+                sz = r.choice([16384, 32768, 40000, 65536]); cnt = (524288 // sz) + r.choice([0, 1, 2])
+                for _ in range(cnt): t.alloc(kind="M", size=sz, heap=h)
         elif k < 0.6 or not t.live:
             t.alloc(size=t.boundary_size(20000))
         elif k < 0.8:
@@ -310,7 +319,27 @@ def g_huge(t, n):
     t.emit("W", 0)
 
 
-PROFILES = {"boundary": g_boundary, "fillfree": g_fillfree, "span": g_span, "aligned": g_aligned, "realloc": g_realloc,
+def g_hugechurn(t, n):
+    """small and multi-block huge allocations alternate with frees and collects, so that arena blocks go through every
+    combination of free / in use / committed / not committed / purge-scheduled before a huge block spans them"""
+    r = t.r
+    for _ in range(min(n, 60)):
+        k = r.random()
+        if (k < 0.5 or not t.live) and t.bytes < 220 << 20 and len(t.live) < 7:
+            m = r.random()
+            if m < 0.3:   t.alloc(kind=r.choice(["M", "Z"]), size=r.choice([100, 5000, 70000, 1 << 20]), heap=0)
+            elif m < 0.7: t.alloc(kind=r.choice(["M", "Z"]), size=r.choice([17 << 20, 20 << 20, 31 << 20, 33 << 20]), heap=0)
+            else:         t.alloc(kind=r.choice(["M", "Z"]), size=r.choice([40 << 20, 50 << 20, 65 << 20, 90 << 20]), heap=0)
+        elif k < 0.8:
+            t.free(mode="F")
+        elif k < 0.93:
+            t.emit("COL", 1 if r.random() < 0.7 else 0)
+        elif t.live:
+            t.emit("U", r.choice(sorted(t.live)))
+    t.emit("W", 0)
+
+
+PROFILES = {"hugechurn": g_hugechurn, "boundary": g_boundary, "fillfree": g_fillfree, "span": g_span, "aligned": g_aligned, "realloc": g_realloc,
             "heaps": g_heaps, "malformed": g_malformed, "huge": g_huge}
 
 
